@@ -224,6 +224,72 @@ def old_sources(ctx, g, root):
                 ctx.violation('C17:cleanup-deleted-entry-just-saved', dict(kind='faults', state='old-source-%d-days+%s' % (days, lock_state), entry=str(ppath)))
 
 
+def cleanup_read_faults(ctx, g, root):
+    """the reading operations of the clean-up fail while it is due (the cache directory or a version directory was removed by another process between the
+    existence test and the listing, a directory or the lock file cannot be read): the parse that triggered the clean-up succeeds all the same.
+    Faults: listdir / scandir raise FileNotFoundError or PermissionError, getmtime / stat of the lock file raise PermissionError or EIO."""
+    real_os = pcache.os
+    path = os.path.join(root, 'm0.py')
+    code = open(path).read()
+    fresh_sig = preds.sig_tree(g.parse(code))
+    import errno as _errno
+    excs = (('FileNotFoundError', lambda q: FileNotFoundError(_errno.ENOENT, 'No such file or directory', str(q))),
+            ('PermissionError', lambda q: PermissionError(_errno.EACCES, 'Permission denied', str(q))),
+            ('EIO', lambda q: OSError(_errno.EIO, 'Input/output error', str(q))))
+    for op in ('listdir', 'scandir', 'getmtime', 'stat'):
+        for ename, mk in excs:
+            if op in ('getmtime', 'stat') and ename == 'FileNotFoundError':
+                continue            # a missing lock file is the ordinary first-run case
+            state = 'cleanup-%s-raises-%s' % (op, ename)
+            cdir = Path(root) / ('cache-' + state)
+            pcache.parser_cache.clear()
+            parse_cached(g, os.path.join(root, 'm1.py'), cdir)         # creates the directory and the lock file
+            lock = pcache._get_cache_clear_lock_path(cache_path=cdir)
+            if os.path.exists(lock):
+                o = time.time() - 3 * 86400
+                os.utime(lock, (o, o))                                 # the daily clean-up is due
+
+            def raiser(q, *a, **k):
+                raise mk(q)
+
+            class FaultyPath:
+                def __getattr__(self, name):
+                    if name == 'getmtime' and op in ('getmtime', 'stat'):
+                        def guarded(q, *a, **k):
+                            if str(q).endswith('PARSO-CACHE-LOCK'):
+                                raise mk(q)
+                            return real_os.path.getmtime(q, *a, **k)
+                        return guarded
+                    return getattr(real_os.path, name)
+
+            class FaultyOs:
+                def __getattr__(self, name):
+                    if name == op and op in ('listdir', 'scandir'):
+                        return raiser
+                    if name == 'stat' and op == 'stat':
+                        def guarded(q, *a, **k):
+                            if str(q).endswith('PARSO-CACHE-LOCK'):
+                                raise mk(q)
+                            return real_os.stat(q, *a, **k)
+                        return guarded
+                    if name == 'path':
+                        return FaultyPath()
+                    return getattr(real_os, name)
+            pcache.os = FaultyOs()
+            try:
+                pcache.parser_cache.clear()
+                ctx.count('crash-states')
+                try:
+                    m = parse_cached(g, path, cdir)
+                    if preds.sig_tree(m) != fresh_sig:
+                        ctx.violation('C17:wrong-tree-on-%s' % state, dict(kind='faults', state=state, module=code))
+                except Exception as e:
+                    ctx.violation('C17:parse-raises-on-%s:%s' % (state, type(e).__name__),
+                                  dict(kind='faults', state=state, exception=preds.crash_sig(e), module=code))
+            finally:
+                pcache.os = real_os
+
+
 def unwritable_everything(ctx, g, root):
     """a cache root that cannot be written and does not hold the version directory yet (load side: the directory cannot be created), and a lock file
     that cannot be touched although saving works (it belongs to somebody else): parsing succeeds all the same"""
@@ -472,6 +538,7 @@ def run_limited(ctx, b, drv):
         races(ctx, g, root)
         old_sources(ctx, g, root)
         unwritable_everything(ctx, g, root)
+        cleanup_read_faults(ctx, g, root)
         # clean-up keeps entries in use
         cdir2 = Path(root) / 'cache2'
         now = time.time()
